@@ -26,6 +26,15 @@ GOOD_SPEC = [b"C", b"H", b"O", b"C[13]", b"Cl", b"Fe", b"Cl[37]", b"Fe[54]", b"e
 BAD_SPEC = [b"", b"C[14]", b"Xx", b"C[", b"C[x]", b"C[99999]", b"\xc3\xa9", b"C\xff", b"C[13]x", b"[13]", b"\xf0\x9f\x98\x80", b"C]"]
 
 
+# characters a lenient front end might strip or skip — byte-order mark, zero-width space, no-break space, blanks, line ends,
+# soft hyphen, left-to-right mark, word joiner: the Rust parsers reject all of them, so must the binding
+IGNORABLE = [b"\xef\xbb\xbf", b"\xe2\x80\x8b", b"\xc2\xa0", b" ", b"\t", b"\n", b"\r\n", b"\xc2\xad", b"\xe2\x80\x8e", b"\xe2\x81\xa0"]
+DECORATED_FORMULA = [x for d in IGNORABLE for g in (b"H2O", b"C6H12O6", b"C[13]2H5(OH)2") for x in (d + g, g + d, g[:1] + d + g[1:], d)]
+DECORATED_SPEC = [x for d in IGNORABLE for g in (b"C", b"C[13]", b"Cl") for x in (d + g, g + d)]
+BAD_FORMULA = BAD_FORMULA + DECORATED_FORMULA
+BAD_SPEC = BAD_SPEC + DECORATED_SPEC
+
+
 def hx(b):
     return b.hex() if b else "-"
 
@@ -47,7 +56,13 @@ def gen_sequences(r: Run):
         probes = [hx(x) for x in (b"H", b"H[1]", b"C", b"C[12]", b"O", b"O[16]", b"Bk", b"Cm")]
         for op in ("sub", "add"):
             tseqs.append(["parse " + hx(a), "parse " + hx(b), f"{op} 0 1"] + [f"get 0 {x}" for x in probes] + ["mass 0", f"{op} 1 0"] + [f"get 1 {x}" for x in probes])
-    seqs = dseqs + tseqs + [
+    iseqs = []
+    for i in range(0, len(DECORATED_FORMULA), 4):
+        fs = DECORATED_FORMULA[i:i + 4]
+        sp = DECORATED_SPEC[(i // 4) % len(DECORATED_SPEC)]
+        iseqs.append(["parse " + hx(f) for f in fs] + ["new", f"set 0 {hx(sp)} 5", f"inc 0 {hx(sp)} 2", f"get 0 {hx(sp)}", "get 0 " + hx(b"C"), "mass 0",
+                                                        "parse " + hx(b"H2O"), f"get 1 {hx(sp)}"])
+    seqs = dseqs + tseqs + iseqs + [
         ["parse " + hx(LONG_FORMULA[0]), "mass 0", "parse " + hx(LONG_FORMULA[1]), "get 1 " + hx(b"He"), "get 1 " + hx(b"H"), "parse " + hx(LONG_FORMULA[2]),
          "new", "set 3 " + hx(LONG_SPEC[0]) + " 5", "get 3 " + hx(b"C[13]"), "get 3 " + hx(LONG_SPEC[0]), "inc 3 " + hx(LONG_SPEC[2]) + " 1"],
         ["new", "parse 4829", "set 0 435b785d 1", "get 0 c3a9", "free 0"],
